@@ -265,7 +265,9 @@ def timestamps(sh, fa, rng, spec):
         sh.count("timestamp_pre_epoch", sum(1 for v in vals if RL.micros_of_aware(v) < 0))
         # naive datetimes under the plain timestamp types (TZ=UTC)
         nv = rand_instants(rng, n // 3)
-        nv = [v for v in nv if v.year >= 2]  # keep clear of time.mktime's lower limit handling
+        # the first and the last day of the datetime range included (TZ=UTC)
+        nv += [dt.datetime(1, 1, 1), dt.datetime(1, 1, 1, 0, 0, 0, 1), dt.datetime(1, 1, 1, 23, 59, 59, 999999), dt.datetime(1, 1, 2),
+               dt.datetime(9999, 12, 31), dt.datetime(9999, 12, 31, 23, 59, 59, 999999), dt.datetime(9999, 12, 30, 12), dt.datetime(1970, 1, 1)]
         raw_n = lambda v, div=div: RL.micros_of_naive(v) // div
         back_n = lambda v, div=div: RL.naive_from_micros(RL.micros_of_naive(v) // div * div).replace(tzinfo=UTC)
         if not batch(sh, fa, js, nv, raw_n, back_n, "timestamp_naive_values", lt + " naive"):
